@@ -75,14 +75,7 @@ partial def valJ : Val → Json
   | .range n => jArr [jStr "range", jNat n]
   | .ext k r => jArr [jStr "ext", jStr k, jStr r]
 
-def excOf (s : String) : Exc :=
-  match s with
-  | "ValidatorException" => .validator | "ConversionError" => .conversion | "ValidateException" => .validate
-  | "ValueError" => .valueError | "TypeError" => .typeError | "OverflowError" => .overflowError
-  | "AttributeError" => .attributeError | "KeyError" => .keyError | "IndexError" => .indexError
-  | "ArithmeticError" => .arithmeticError | "LookupError" => .lookupError | "Exception" => .exception
-  | "BaseException" => .baseException
-  | n => .other n
+def excOf (s : String) : Exc := excOfName s
 
 def excName : Exc → String
   | .validator => "ValidatorException" | .conversion => "ConversionError" | .validate => "ValidateException"
@@ -94,6 +87,16 @@ def excName : Exc → String
 
 def orcOf {α : Type} (f : Json → α) (j : Json) : Orc α :=
   if jTag j == "ok" then .ok (f (jAt j 1)) else .raises (excOf (jS (jAt j 1)))
+
+/-- the descriptors are equal (the values of a case are compared through their JSON form) -/
+def sameVal (a b : Val) : Bool := valJ a == valJ b
+
+/-- the answer of a callee for the arguments the harness asked it with (first match); an argument the harness did not ask
+    for is reported as the class `oracle-missing` (the judge treats that as a harness / driver inconsistency) -/
+def askVal {α : Type} (tab : List (Val × Orc α)) (x : Val) : Orc α :=
+  match tab.find? (fun r => sameVal r.1 x) with
+  | some r => r.2
+  | none => .raises (.other "oracle-missing")
 
 def resJ (input : Val) : VRes Val → Json
   | .ok r => mkObj [("out", jStr "ok"), ("value", valJ r), ("same", jBool (valJ r == valJ input))]
@@ -159,27 +162,43 @@ def handle (c : Json) : Json :=
     both v (vEmail isSpace post v) (specEmail isSpace post v)
   | "emailc" =>
     let post : Val → Val := fun _ => valOf (jF c "post")
-    let m := orcOf jB (jF c "matched")
-    both v (vEmailCustom m post v) (specOracleBool m (post v) false)
+    let m := askVal [(v, orcOf jB (jF c "matched"))]
+    both v (vEmailCustom m post v) (specOracleBool (m v) (post v) false)
   | "pattern" =>
-    let m := orcOf jB (jF c "matched")
-    both v (vMatchPattern m v) (specOracleBool m v true)
+    let m := askVal [(v, orcOf jB (jF c "matched"))]
+    both v (vMatchPattern m v) (specOracleBool (m v) v true)
   | "uuid" =>
-    let o := orcOf valOf (jF c "o")
+    let o := askVal [(v, orcOf valOf (jF c "o"))]
     both v (vIsUuid (jB (jF c "convert")) o v) (specIsUuid (jB (jF c "convert")) o v)
   | "enum" =>
     let e := jF c "env"
+    let upper := valOf (jF e "upper")
+    let isStr := jB (jF e "isStr")
+    -- candidates the harness asked `int()` / `enum()` with: the raw value (0) and its upper-cased form (1, only for a str)
+    let cands : List (Nat × Val) := if isStr then [(0, v), (1, upper)] else [(0, v)]
+    let intTab : List (Val × Orc Val) := cands.map fun (i, x) => (x, orcOf valOf (jAt (jF e "intOf") i))
+    let enumTab : List (Val × Orc Val) :=
+      (cands.map fun (i, x) => (x, orcOf valOf (jAt (jAt (jF e "lookup") i) 0))) ++
+      (cands.filterMap fun (i, _) => match orcOf valOf (jAt (jF e "intOf") i) with
+        | .ok n => some (n, orcOf valOf (jAt (jAt (jF e "lookup") i) 1))
+        | .raises _ => none)
     let env : EnumEnv :=
-      { valueIsStr := jB (jF e "isStr"), upper := valOf (jF e "upper"), isIntEnum := jB (jF e "isIntEnum")
-        intOf := fun up => orcOf valOf (jAt (jF e "intOf") (if up then 1 else 0))
-        lookup := fun up viaInt => orcOf valOf (jAt (jAt (jF e "lookup") (if up then 1 else 0)) (if viaInt then 1 else 0)) }
+      { isStrInst := fun x => if sameVal x v then isStr else x.isStr
+        upperOf := fun x => if sameVal x v then upper else x
+        isIntEnum := jB (jF e "isIntEnum")
+        intOf := askVal intTab
+        enumOf := askVal enumTab }
     both v (vIsEnum (jB (jF c "convert")) (jB (jF c "upper")) env v) (specIsEnum (jB (jF c "convert")) (jB (jF c "upper")) env v)
   | "iso" =>
-    let o := orcOf valOf (jF c "o")
-    both v (vIso o v) (specIso o)
+    let o := askVal [(v, orcOf valOf (jF c "o"))]
+    both v (vIso o v) (specIso o v)
   | "unix" =>
-    let fl := orcOf (fun j => numOf j) (jF c "fl")
-    let td := orcOf intOfJ (jF c "td")
+    let flo := orcOf (fun j => numOf j) (jF c "fl")
+    let fl := askVal [(v, flo)]
+    let tdo := orcOf intOfJ (jF c "td")
+    let td : Num → Orc Int := fun s => match flo with
+      | .ok x => if s = x then tdo else .raises (.other "oracle-missing")
+      | .raises _ => .raises (.other "oracle-missing")
     both v (vUnix fl td v) (specUnix fl td v)
   | "tree" =>
     let sem := leafSem isSpace (jA (jF c "leaves"))
